@@ -1,145 +1,114 @@
+// c19: find responses written by the server helper (rwriter) are read back identically
+// by the find client.
+//
+// An httptest server whose handler uses rwriter exactly as an indexer's find handler does
+// (New, NewProviderResponseWriter, WriteProviderResult, Close; errors answered with the
+// API error's status) is queried by the REAL find/client (Find, FindBatch) and by a raw
+// line reader.  Families of Coq cases (each carries the inputs AND what the real code did):
+//
+//	neg      rwriter.New's content negotiation, exhaustive over classified Accept lists
+//	path     path.Base / path.Base(path.Dir) / TrimSpace as rwriter.New uses them
+//	mhd      multihash.Decode
+//	new      rwriter.New: negotiation + resource type + key (base58 / hex / CID text forms)
+//	e2e      request -> response on the wire (as an abstract JSON tree) -> what client.Find
+//	         and the line reader obtained
+//	batch    client.FindBatch over several multihashes
+//	apierr   apierror.EncodeError / DecodeError
+//	httperr  http.Error + apierror.FromResponse
+//
+// Direct oracles (Go only, from the property text) run on every scenario; see scenario.go.
 package main
 
 import (
-	"context"
-	"encoding/hex"
-	"encoding/json"
-	"errors"
 	"fmt"
-	"io"
-	"net/http"
-	"net/http/httptest"
-	"path"
+	"runtime/debug"
 
-	"github.com/ipni/go-libipni/apierror"
-	"github.com/ipni/go-libipni/find/client"
-	"github.com/ipni/go-libipni/find/model"
-	"github.com/ipni/go-libipni/rwriter"
-	"github.com/libp2p/go-libp2p/core/peer"
-	"github.com/mr-tron/base58"
-	"github.com/multiformats/go-multiaddr"
-	"github.com/multiformats/go-multihash"
+	"verif/harness/vlib"
 )
 
-func main() {
-	var results []model.ProviderResult
-	prefer := false
-	ts := httptest.NewServer(http.HandlerFunc(func(w http.ResponseWriter, r *http.Request) {
-		fmt.Printf("  server: path=%q accept=%q ct=%q\n", r.URL.Path, r.Header.Values("Accept"), r.Header.Get("Content-Type"))
-		rw, err := rwriter.New(w, r, rwriter.WithPreferJson(prefer))
-		if err != nil {
-			var ae *apierror.Error
-			if errors.As(err, &ae) {
-				http.Error(w, ae.Error(), ae.Status())
-				return
-			}
-			http.Error(w, err.Error(), 500)
-			return
-		}
-		fmt.Printf("  server: mh=%s nd=%v type=%s cid=%s\n", rw.Multihash().HexString(), rw.IsND(), rw.PathType(), rw.Cid())
-		pw := rwriter.NewProviderResponseWriter(rw)
-		for _, pr := range results {
-			if err := pw.WriteProviderResult(pr); err != nil {
-				fmt.Println("  server: write err", err)
-			}
-		}
-		if err := pw.Close(); err != nil {
-			var ae *apierror.Error
-			if errors.As(err, &ae) {
-				http.Error(w, ae.Error(), ae.Status())
-				return
-			}
-			http.Error(w, err.Error(), 500)
-		}
-	}))
-	defer ts.Close()
-	mh, _ := multihash.Sum([]byte("hello"), multihash.SHA2_256, -1)
-	cl, _ := client.New(ts.URL)
-	for _, p := range []bool{false, true} {
-		prefer = p
-		resp, err := cl.Find(context.Background(), mh)
-		fmt.Printf("prefer=%v empty: resp=%+v err=%v\n", p, resp, err)
-	}
-	pid, _ := peer.Decode("12D3KooWKRyzVWW6ChFjQjK4miCty85Niy48tpPV95XdKu1BcvMA")
-	a1, _ := multiaddr.NewMultiaddr("/ip4/1.2.3.4/tcp/80")
-	results = []model.ProviderResult{
-		{ContextID: nil, Metadata: nil, Provider: nil},
-		{ContextID: []byte{}, Metadata: []byte{}, Provider: &peer.AddrInfo{ID: pid}},
-		{ContextID: []byte{0, 255}, Metadata: []byte("x"), Provider: &peer.AddrInfo{ID: pid, Addrs: []multiaddr.Multiaddr{a1, nil}}},
-		{ContextID: []byte{1}, Provider: &peer.AddrInfo{}},
-	}
-	for i, r := range results {
-		b, err := json.Marshal(r)
-		fmt.Printf("json[%d] %s err=%v\n", i, b, err)
-		var back model.ProviderResult
-		err = json.Unmarshal(b, &back)
-		fmt.Printf("   back=%+v provider=%+v err=%v\n", back, back.Provider, err)
-	}
-	results = results[:3]
-	prefer = true
-	resp, err := cl.Find(context.Background(), mh)
-	fmt.Printf("find: %+v err=%v\n", resp, err)
-	get := func(p string, accept ...string) {
-		req, _ := http.NewRequest("GET", ts.URL+p, nil)
-		for _, a := range accept {
-			req.Header.Add("Accept", a)
-		}
-		res, err := http.DefaultClient.Do(req)
-		if err != nil {
-			fmt.Println("GET err", err)
-			return
-		}
-		body, _ := io.ReadAll(res.Body)
-		res.Body.Close()
-		fmt.Printf("GET %s %q -> %d ct=%q body=%q\n", p, accept, res.StatusCode, res.Header.Get("Content-Type"), body)
-	}
-	prefer = false
-	get("/multihash/"+mh.B58String(), "application/x-ndjson")
-	get("/multihash/"+mh.HexString(), "application/json")
-	get("/multihash/"+mh.HexString()+"/", "application/json")
-	get("/multihash/%20"+mh.HexString()+"%20", "application/json")
-	get("/a/../multihash/./"+mh.HexString(), "application/json")
-	get("/multihash//"+mh.HexString(), "application/json")
-	get("//"+mh.HexString(), "application/json")
-	get("/"+mh.HexString(), "application/json")
-	get("", "application/json")
-	get("/multihash/"+mh.B58String(), "application/json;q=0.5, text/html")
-	get("/multihash/"+mh.B58String(), "text/html", "application/json")
-	get("/multihash/"+mh.B58String(), "text/html")
-	get("/multihash/"+mh.B58String(), "application/json;;")
-	get("/multihash/"+mh.B58String(), "application/x-ndjson,*/*, ;bad")
-	get("/multihash/"+mh.B58String(), "")
-	get("/multihash/"+mh.B58String(), "APPLICATION/JSON")
-	results = nil
-	get("/multihash/"+mh.B58String(), "application/x-ndjson")
-	get("/multihash/"+mh.B58String(), "application/json")
-	fmt.Println(path.Base(""), path.Dir(""), path.Base(path.Dir("/")), path.Base(path.Dir("/x")))
+type replay struct {
+	Kind string `json:"kind"`
+}
 
-	// hex / base58 ambiguity: sha3-224 multihash hex "171c" + 56 hex digits without 0
-	n, found := 0, 0
-	for seed := 0; seed < 3000000 && found < 3; seed++ {
-		d, _ := multihash.Sum([]byte(fmt.Sprintf("s%d", seed)), multihash.SHA3_224, -1)
-		hs := hex.EncodeToString(d)
-		b, err := base58.Decode(hs)
-		if err != nil {
-			continue
+func main() {
+	debug.SetMemoryLimit(2 << 30)
+	c := vlib.Init("C19")
+	defer c.Finish()
+	initPools(c)
+	req := []string{"From Model Require Import C19_FindWire."}
+	negChk, newChk, e2eChk := "neg_case_ok", "new_case_ok", "e2e_case_ok"
+	s := newServer()
+	defer s.ts.Close()
+
+	if c.Replay != "" {
+		var k replay
+		if err := c.LoadReplay(&k); err != nil {
+			panic(err)
 		}
-		n++
-		if _, err := multihash.Decode(b); err == nil {
-			found++
-			fmt.Printf("AMBIG seed=%d hex=%s b58->%x (tried %d no-zero)\n", seed, hs, b, n)
+		c.Family("e2e", req, e2eChk, 300)
+		c.Family("neg", req, negChk, 600)
+		c.Family("new", req, newChk, 400)
+		c.Family("batch", req, "batch_case_ok", 200)
+		c.Family("apierr", req, "apierr_case_ok", 400)
+		fmt.Printf("replay kind=%s\n", k.Kind)
+		switch k.Kind {
+		case "e2e":
+			var sc Scn
+			c.LoadReplay(&sc)
+			runScn(c, s, sc, true)
+		case "neg":
+			var n NegJ
+			c.LoadReplay(&n)
+			doNeg(c, n, true)
+		case "new":
+			var n NewJ
+			c.LoadReplay(&n)
+			doNew(c, n, true)
+		case "batch":
+			var b BatchJ
+			c.LoadReplay(&b)
+			doBatch(c, s, b, true)
+		case "apierr":
+			var a ApiErrJ
+			c.LoadReplay(&a)
+			doApiErr(c, a, true)
+		default:
+			panic("unknown replay kind " + k.Kind)
 		}
+		return
 	}
-	fmt.Println("no-zero candidates", n, "found", found)
-	// apierror
-	for _, e := range []error{apierror.New(nil, 404), apierror.New(errors.New("x <&> \xff"), 400), apierror.New(errors.New(""), 0), errors.New("plain"), apierror.New(nil, 0), apierror.New(nil, 999), fmt.Errorf("wrap: %w", apierror.New(errors.New("in"), 418))} {
-		b := apierror.EncodeError(e)
-		d := apierror.DecodeError(b)
-		var ae *apierror.Error
-		st := -1
-		if errors.As(d, &ae) {
-			st = ae.Status()
-		}
-		fmt.Printf("apierr %q -> %s -> %q status=%d\n", e.Error(), b, d, st)
+
+	// which tree is this?  (only to pick the model the correspondence is checked against
+	// and to say so in the evidence; the oracles do not depend on it)
+	v0neg, v0key := probeTree()
+	if v0neg && v0key {
+		negChk, newChk, e2eChk = "neg_v0_case_ok", "new_v0_case_ok", "e2e_v0_case_ok"
+		c.Note("the tree has none of pending/C19-fix-{accept-elements,hex-key}: correspondence checked against the *_v0 model (the code before the fixes)")
+	} else if v0neg || v0key {
+		c.Note(fmt.Sprintf("the tree has only some of the C19 fixes (old negotiation: %v, old key parsing: %v): correspondence checked against the repaired model", v0neg, v0key))
 	}
+	c.Family("neg", req, negChk, 600)
+	c.Family("path", req, "path_case_ok", 500)
+	c.Family("mhd", req, "mhd_case_ok", 500)
+	c.Family("new", req, newChk, 400)
+	c.Family("e2e", req, e2eChk, 120)
+	c.Family("batch", req, "batch_case_ok", 100)
+	c.Family("apierr", req, "apierr_case_ok", 400)
+	c.Family("httperr", req, "httperr_case_ok", 400)
+
+	c.Res.Exhaustive = true
+	c.Res.Rule = "neg: every Accept header made of <=4 classified elements in one value, <=2 elements in each of two values, one element in each of three values (classes ndjson/json/any/other/malformed) x preferJson, exhaustive, plus seeded headers with q-values, parameters, case and spacing variants. " +
+		"path: path shapes x segment alphabets (empty, dot, dotdot, spaces, slashes) exhaustive to 4 segments over a small alphabet plus seeded byte strings. " +
+		"mhd: valid multihashes of 8 functions, every truncation / extension of some, hostile varints. " +
+		"new: 12 path shapes x key forms (base58, hex, HEX, CIDv0, CIDv1 in 8 multibases, 16 malformed kinds, hex without the digit 0, cross-form) x multihash functions x resource types (default and custom), direct call. " +
+		"e2e: real HTTP. real-client requests x preferJson x result lists (0 results; every nil/empty/binary context ID x metadata x provider shape alone; seeded lists of 2..5; lists with an unreadable provider); raw requests: 30 Accept headers x preferJson x {0,1,3 results}; key forms x multihash functions; path shapes; seeded combinations. " +
+		"non-trivial = (e2e) >= 2 results, or 1 result on a raw request; (new) a well-formed key; (neg) >= 2 elements"
+	runNeg(c)
+	runPath(c)
+	runMhd(c)
+	runNew(c)
+	runE2E(c, s)
+	runBatch(c, s)
+	runApiErr(c)
+	runHTTPErr(c)
 }
